@@ -24,6 +24,7 @@ META["technique"] = "static analysis: dominance / provenance / typestate rules o
 META["explanation"] += " R13.6 in the batched container's push_into_* / filter_map functions (helpers inlined, combinators desugared) the accumulated batch is only grown: nothing an adapter produced for a source batch is discarded."
 META["explanation"] += ' R13.7 the diffs an adapter produces for one source diff enter the batch front to back (no pop() of the per-diff result without reverse(), no rev()).'
 META["explanation"] += ' R13.7 also requires the whole per-diff answer of the adapter to enter the batch (no next / next_back / nth / take on it outside a draining loop). R13.8 every diff of a batch reaches the translator (no filter / skip / take / retain on the batch before map_diffs).'
+META["explanation"] += ' R13.9 a batched push_into_* helper that holds diffs back flushes them before it hands any other diff to the translator (no overtaking); R13.10 the collected batch is not re-arranged (sort / swap / rotate / reverse / dedup / cut).'
 
 VEC_IMPL = "std::vec::Vec<eyeball_im::VectorDiff<T>>"
 ONE_IMPL = "eyeball_im::VectorDiff<T>"
@@ -315,3 +316,90 @@ def r13_8(ctx, imp):
     if not bad:
         ctx.holds("R13.8", None, "every-diff-reaches-the-translator", None, "%d batched push_into_* functions hand every diff of the batch to the translator" % n)
     ctx.floor("R13.8", n, 4)
+    # R13.9 .. and in their order: a helper that holds some diffs back (collects them in a local collection inside its loop over the
+    # batch, to hand them over later as one) flushes what it holds before it hands any *other* diff to the translator - a diff that
+    # overtakes held-back ones reaches a replica that does not contain them yet (indices and lengths are relative to all earlier diffs)
+    from .adapters import natural_loops
+    k = 0
+    for p in imp["fns"]:
+        f = F.fn(UT, p)
+        if f is None or not f.built or not f.name.startswith("push_into_"):
+            continue
+        b = inl(F, f, desugar=True, tag="r13.9") or f.built
+        mapper = [i for i in range(1, b.arg_count + 1) if re.search(r"FnMut\(|impl .*Fn", str(b.locals[i]["ty"])) or (b.locals[i].get("name") or "").startswith("map_")]
+        for h, blks in natural_loops(b):
+            grow = {}
+            for blk, t in b.calls(r"::(push|push_back|push_front|extend|append|insert)$", blocks=sorted(blks)):
+                if not t["args"]:
+                    continue
+                pl = t["args"][0].get("place")
+                e = b.expr_of_op(t["args"][0])
+                x = strip(e)
+                if x[0] != "local" and not (pl and not pl["proj"]):
+                    continue
+                # what is pushed: the translator's output (result collection) or something else (held back)?
+                pushed = b.expr_of_op(t["args"][-1]) if len(t["args"]) > 1 else None
+                from_mapper = pushed is not None and contains(pushed, lambda y: y[0] == "call" and isinstance(y[1], (str, tuple)) and ("call_mut" in str(y[1]) or "FnMut" in str(y[1]) or "call_once" in str(y[1])))
+                root = pl["l"] if pl and not pl["proj"] else None
+                # resolve `&mut local`
+                if root is not None:
+                    ds = b.defs[0].get(root, [])
+                    if len(ds) == 1 and ds[0][1] == "assign" and ds[0][2]["k"] in ("ref", "raw") and not ds[0][2]["place"]["proj"]:
+                        root = ds[0][2]["place"]["l"]
+                if root is None or from_mapper:
+                    continue
+                # defined outside the loop?
+                ds = b.defs[0].get(root, [])
+                if ds and all(d_[0][0] not in blks for d_ in ds):
+                    grow.setdefault(root, []).append(blk)
+            if not grow:
+                continue
+            def touches(t, root):
+                for a in t["args"]:
+                    pl = a.get("place")
+                    if pl is None:
+                        continue
+                    l_ = pl["l"]
+                    ds = b.defs[0].get(l_, [])
+                    if l_ == root:
+                        return True
+                    if len(ds) == 1 and ds[0][1] == "assign" and ds[0][2]["k"] in ("ref", "raw") and ds[0][2]["place"]["l"] == root:
+                        return True
+                return False
+            for root, gblks in sorted(grow.items()):
+                flushes = {blk for blk, t in b.calls(blocks=sorted(blks)) if touches(t, root) and blk not in gblks and re.search(r"(::take$|::drain$|::clear$|::split_off$|::pop\w*$|::into_iter$|flush|^std::mem::(take|replace|swap)$)", t.get("callee") or "")}
+                for blk, t in b.calls(blocks=sorted(blks)):
+                    cal = str(t.get("callee") or "") + str((t.get("extra") or {}).get("full") or "")
+                    if not re.search(r"FnMut(<.*>)?>?::call_mut$|FnOnce(<.*>)?>?::call_once$|Fn(<.*>)?>?::call$", str(t.get("callee") or "")):
+                        continue
+                    if not t["args"] or not any(contains(b.expr_of_op(t["args"][0]), lambda y, m=m: y[0] == "param" and y[1] == m) for m in mapper):
+                        continue
+                    if blk in flushes:
+                        continue
+                    k += 1
+                    # can this call be reached from the loop header without flushing?  (the flush helper itself calls the mapper with the held-back diffs: those calls sit behind the drain)
+                    reach_wo = blk in b.reachable_from(h, avoid_blocks=sorted(flushes)) if flushes else True
+                    ctx.verdict(not reach_wo, "R13.9", f, "no-diff-overtakes-held-back-ones", b.line_at((blk, 10 ** 6)), "the held-back diffs are flushed before this diff is handed to the translator",
+                                "`%s` collects some diffs of the batch in a local collection (to hand them over later as one) but hands this diff to the adapter's translator on a path that has not flushed what is held back: "
+                                "the diff overtakes earlier ones and reaches a replica that does not contain them yet - e.g. `push_back, push_back, pop_front` on an empty vector pops from an empty sorted buffer (index underflow), or positions computed by the translator are off by the number of held-back items" % f.path)
+    # R13.10 .. and the batch that leaves is the translator's output in the translator's order: the helpers of the batched flavour do
+    # not sort, swap, rotate, reverse, de-duplicate or cut the collected diffs (each diff is relative to all diffs before it; "these
+    # two work on opposite ends, so they commute" stops being true when the view runs empty or is at its limit)
+    REORDER = r"::(sort|sort_by|sort_by_key|sort_unstable\w*|sort_by_cached_key|swap|swap_remove|rotate_left|rotate_right|reverse|select_nth_unstable\w*|dedup\w*|retain\w*|split_off|truncate|remove|insert|drain)$"
+    for p in imp["fns"]:
+        f = F.fn(UT, p)
+        if f is None or not f.built or not (f.name.startswith("push_into_") or f.name.startswith("extend_")):
+            continue
+        b = inl(F, f, desugar=True, tag="r13.9") or f.built
+        hits = []
+        for blk, t in b.calls(REORDER):
+            full = str((t.get("extra") or {}).get("full") or "") + " " + str(t.get("callee") or "")
+            recv_ty = ""
+            if t["args"] and t["args"][0].get("place") is not None:
+                recv_ty = str(b.locals[t["args"][0]["place"]["l"]]["ty"])
+            if "VectorDiff<" in full or "VectorDiff<" in recv_ty:
+                hits.append((blk, t))
+        ctx.verdict(not hits, "R13.10", f, "batch-leaves-in-translator-order", b.line_at((hits[0][0], 10 ** 6)) if hits else f.loc(), "the collected diffs are handed out as collected",
+                    "`%s` re-arranges the diffs it collected from the adapter's translator (`%s`) before handing the batch out: every diff is relative to the state all earlier diffs of the batch produce - e.g. PopBacks moved in front of the PushFronts they made room for empty a short view first and leave it above its limit afterwards" % (
+                        f.path, (hits[0][1].get("callee") or "?").split("::")[-1] if hits else ""))
+    return n
